@@ -4,6 +4,7 @@
 package main
 
 import (
+	"bytes"
 	"fmt"
 
 	"github.com/Comcast/gots/v2/packet"
@@ -357,6 +358,22 @@ func run(c *mon.Ctx) {
 			}
 		} else if err != nil || q == nil {
 			c.Fail("validate:FromBytes-188", "FromBytes rejected a valid 188-byte slice", wit{Op: "FromBytes", Before: mon.Hex(b)})
+		}
+		// the same length cut from a larger buffer (a short read into a packet-sized or larger buffer)
+		for _, capacity := range []int{188, 189, 376, 752} {
+			if n > capacity {
+				continue
+			}
+			big := r.Bytes(capacity)
+			big[0], big[3] = 0x47, 0x10
+			q2, err2 := packet.FromBytes(big[:n])
+			c.Eval(1)
+			if n != 188 && (err2 == nil || q2 != nil && false) {
+				c.Fail("validate:FromBytes-length-with-spare-capacity", fmt.Sprintf("FromBytes accepted a slice of %d bytes (capacity %d)", n, capacity), wit{Op: "FromBytes", Arg: fmt.Sprintf("len %d cap %d", n, capacity)})
+			}
+			if n == 188 && (err2 != nil || q2 == nil || !bytes.Equal(q2[:], big[:188])) {
+				c.Fail("validate:FromBytes-188", "FromBytes rejected or altered a valid 188-byte slice cut from a larger buffer", wit{Op: "FromBytes", Arg: fmt.Sprintf("cap %d", capacity)})
+			}
 		}
 		c.Class(fmt.Sprintf("frombytes/len-class=%d", lenClass(n)))
 	})
